@@ -13,8 +13,10 @@ func coreC18(tier string) []RunSpec {
 	for fi := range c18Fees {
 		for rot := 0; rot < 2; rot++ {
 			for k := 0; k < 2; k++ {
-				out = append(out, RunSpec{Profile: "core:sends", Params: map[string]int{"fee": fi, "rot": rot, "k": k}})
+				out = append(out, RunSpec{Profile: "core:sends", Params: map[string]int{"fee": fi, "rot": rot, "k": k, "rst": 0}})
 			}
+			// the sending wallets are restored from their seed (new directory, program started on it) first
+			out = append(out, RunSpec{Profile: "core:sends-after-restore", Params: map[string]int{"fee": fi, "rot": rot, "k": 0, "rst": 1}})
 		}
 	}
 	return out
@@ -47,9 +49,24 @@ func runC18(rc *RunCtx) {
 		ww.StepRotate(fees)
 		ww.StepMint()
 	}
+	rst := rc.P("rst", -1)
+	if rst < 0 {
+		rst = 0
+		if T.Chance("cfg.restore", 1, 3) {
+			rst = 1
+		}
+	}
+	if rst == 1 {
+		for _, w := range append([]string{}, ww.Wallets...) {
+			ww.restoreWallet(w, true, "c18")
+		}
+		rc.S.Probe("c18_sends_after_restore")
+	}
 	rc.StepLoop(3, 16, func(i int) {
 		ww.step = i
-		switch T.Pick("step.kind", 6, 4, 1, 1) {
+		switch T.Pick("step.kind", 6, 4, 1, 1, 1) {
+		case 4:
+			ww.StepReload()
 		case 0:
 			if tok := ww.StepSend(); tok != nil && T.Chance("recv.now", 2, 3) {
 				ww.StepReceive()
